@@ -130,6 +130,9 @@ Lemma hom_abc_hess x a (z : Z) c xl xh :
   Q2R (abc_hess (A:=Q) x a (inject_Z z) c xl xh) = abc_hess (A:=R) (Q2R x) (Q2R a) (IZR z) (Q2R c) (Q2R xl) (Q2R xh).
 Proof.
   unfold abc_hess. rewrite <- hom_eqb. destruct (neqb xl xh); [apply hom_ofZ|].
+  assert (E1 : neqb (A:=Q) (inject_Z z) (nofZ 1) = neqb (A:=R) (IZR z) (nofZ 1)).
+  { rewrite hom_eqb, Q2R_inject, hom_ofZ. reflexivity. }
+  rewrite E1. destruct (neqb (A:=R) (IZR z) (nofZ 1)); [apply hom_ofZ|].
   rewrite !nsub_int. rewrite !hom_mul, !hom_pw_int, hom_abc_q, hom_div, !hom_sub, ?hom_ofZ, ?Q2R_inject.
   change (nofZ (A:=R) 1) with 1. change (nofZ (A:=R) 2) with 2. rewrite ?minus_IZR. reflexivity.
 Qed.
